@@ -65,6 +65,8 @@ def fnum(x):
     """Short exact decimal for our 1/8-grid numbers (and ints)."""
     if x is None:
         return "None"
+    if x in (float("inf"), float("-inf")):
+        return "inf" if x > 0 else "-inf"
     if isinstance(x, int) or float(x).is_integer():
         return "%d" % int(x)
     return repr(float(x))
